@@ -35,6 +35,27 @@ def authenticate (e : AuthEnv) (claimed : String) (peer : Peer) (i : AuthIn) : P
         if !e.verifyHostname dns host then (peer, "err:hostname")
         else ({ peer with did := claimed, authenticated := true }, "ok")
 
+/-- which `grpc.Authenticator` the connection manager is given -/
+inductive AuthKind where
+  | tls | dummy
+  deriving DecidableEq, Repr, Inhabited
+
+/-- `dummyAuthenticator.Authenticate`: believes any claimed node DID -/
+def dummyAuthenticate (claimed : String) (peer : Peer) : Peer × String :=
+  ({ peer with did := claimed, authenticated := true }, "ok")
+
+/-- `Network.Configure`, "Configure TLS": the TLS authenticator whenever TLS is configured (strict or not); without TLS
+    an error in strict mode, else the dummy authenticator (demo/workshop set-ups) -/
+def configureAuthenticator (tlsEnabled strict : Bool) : Nuts.Res AuthKind :=
+  if tlsEnabled then .ok .tls
+  else if strict then .err "disabling TLS in strict mode is not allowed"
+  else .ok .dummy
+
+def authenticateWith (k : AuthKind) (e : AuthEnv) (claimed : String) (peer : Peer) (i : AuthIn) : Peer × String :=
+  match k with
+  | .tls => authenticate e claimed peer i
+  | .dummy => dummyAuthenticate claimed peer
+
 /-- `PAL.Encrypt`: the plaintext is the whole participant list; one ciphertext per participant under that
     participant's key agreement key. `cipherFor d` names the ciphertext made for participant `d`. -/
 def encryptPAL (cipherFor : String → Nat) (pal : List String) : List Nat := pal.map cipherFor
